@@ -118,12 +118,17 @@ def make_case(ck, cid, m, style, old, nprobes, rng, has_cond=True, cond_extra=No
     head, tail, ids = gd.file_wire(m, T)
     cw, fl = gd.cond_wire(mm, lines, has_cond, cond_header, ids)
     mline = core.fcase("c11", [1 if old else 0] + head + aux["isign"] + tail + aux["probe_wire"] + cw, fl)
+    # the same case with the two files handed over as characters (coq/Geom/RunC11Lex.v)
+    gtext = open(os.path.join(d, "model.geom"), "rb").read()
+    ctext = open(os.path.join(d, "model.cond"), "rb").read() if has_cond else b""
+    lex_args = dict(m=m, T=T, files=dict(gd.write_geom.files), has_cond=has_cond, old=old, isign=list(aux["isign"]), probe_wire=list(aux["probe_wire"]), fl=list(fl))
+    lline = core.fcase("c11lex", gd.lex_wire(m, T, lex_args["files"], gtext, ctext, has_cond, old, aux["isign"], aux["probe_wire"]), fl)
     hline = core.fcase("c11", [1, cid, 1 if has_cond else 0, 1 if old else 0], [c for p in probes for c in p])
     # expected conductivity per domain name: the first entry of that name
     first = {}
     for l in lines:
         if l[0] == "e" and l[1] not in first: first[l[1]] = float(l[2])
-    return dict(cid=cid, model=mm, mline=mline, hline=hline, probes=probes, aux=aux, style=style, old=old, has_cond=has_cond, dir=d,
+    return dict(cid=cid, model=mm, mline=mline, lline=lline, lex_args=lex_args, hline=hline, probes=probes, aux=aux, style=style, old=old, has_cond=has_cond, dir=d,
                 cond_lines=[list(l) for l in lines], cond_header=cond_header, cond_first=first, tokens=T, orig=m)
 
 def feq(a, b): return (a == b) or (a != a and b != b)
@@ -221,6 +226,68 @@ def expected_domains(case):
         out.append(hits)
     return out
 
+def vertex_coordinates(m):
+    """coordinates of the geometry vertices in the order add_vertex creates them (first appearance of each point)"""
+    seen = {}; out = []
+    for name, vs, ts in m["meshes"]:
+        for v in vs:
+            k = tuple(float(c) + 0.0 for c in v)
+            if k not in seen: seen[k] = len(out); out.append(k)
+    return out
+
+def decode_domains(rest, nprobes):
+    it = iter(rest[nprobes:]); nx = lambda: next(it)
+    nd = nx(); doms = []
+    for _ in range(nd):
+        nb = nx(); bs = []
+        for _ in range(nb):
+            ins = nx(); no = nx(); bs.append((ins, [(nx(), nx()) for _ in range(no)]))
+        doms.append(bs)
+    return doms
+
+def property_failures(c, ii, if_):
+    """every relation of the property statement that can be evaluated on the implementation output alone:
+    (signature, description) list + number of probe points looked at"""
+    bad = []; nprobe = 0
+    tagk = c["tag"].split(":")[-1]
+    for kind, what in own_relations(c, ii, if_): bad.append(("%s: %s (%s)" % (kind, what, c["tag"]), what))
+    D = decode(ii)
+    # every interface oriented outward whatever the winding in the files: signed volume of (orientation x loaded winding)
+    try:
+        X = vertex_coordinates(c["model"]); doms = decode_domains(D["rest"], len(c["probes"]))
+        for k, bs in enumerate(doms):
+            for ins, oms in bs:
+                vol = sum(o * gd.signed_volume6(X, D["meshes"][mk]["tris"]) for o, mk in oms)
+                if not vol < 0:
+                    bad.append(("orientation: interface not oriented outward (%s)" % tagk,
+                                "domain %d: an interface (meshes %s) keeps orientation x winding with signed volume %+.3g; the library's outward convention needs a negative one" % (k, [mk for _, mk in oms], vol / 6)))
+                    raise StopIteration
+    except StopIteration: pass
+    except Exception: pass
+    if c["probes"]:
+        got = D["rest"][:len(c["probes"])]
+        for p, gk, hits in zip(c["probes"], got, expected_domains(c)):
+            nprobe += 1
+            if len(hits) != 1 or gk != hits[0]:
+                names = [n for n, _ in c["model"]["domains"]]
+                bad.append(("domain(p): %s" % tagk, "probe point %r lies in domain(s) %s geometrically but Geometry::domain returned %s" % (p, [names[h] for h in hits], names[gk] if 0 <= gk < len(names) else gk)))
+                break
+    if c["tag"].startswith("base:"):
+        want, what = expected_nested(c["model"]); got = D["nested"]
+        if want is not None and bool(got) != want:
+            label = "sibling inclusions" if c["model"]["info"].get("kind") == "inclusions" else what
+            bad.append(("nested classification: %s classified %s" % (label, "nested" if got else "non-nested"),
+                        "is_nested() = %d for a model with %s (the interfaces %s a chain under inclusion); witness of nested_classification_correct_refuted replayed on the library" % (got, what, "form" if want else "do not form")))
+    lf = os.path.join(c["dir"], "loaded.txt")
+    if c["has_cond"] and os.path.exists(lf):
+        for line in open(lf):
+            t = line.split()
+            if t and t[0] == "domain":
+                want = c["cond_first"].get(t[1])
+                if want is None or float.fromhex(t[2]) != float(want):
+                    bad.append(("conductivity of %s" % c["tag"].split(":")[0], "domain %s got conductivity %s, file says %r" % (t[1], t[2], want))); break
+    return bad, nprobe
+
 # ------------------------------------------------------------------ main
 def main(replay=None):
     ck = core.Check(PROP, "proof")
@@ -263,6 +330,8 @@ def main(replay=None):
                 wm = models.split_hemispheres(1.0, [1.15], (1.0, 0.33), [0.0125], 1); wm["info"]["topology"] = "split"; return wm
             if name == "split-zero":
                 wm = models.split_hemispheres(1.0, [1.2], (0.0, 0.0), [0.33], 1); wm["info"]["topology"] = "split-zero"; return wm
+            if name == "outer-zero":
+                wm = models.nested([0.7, 0.85, 1.0], [1.0, 0.0, 0.0], 0); wm["info"]["topology"] = "nested-zero"; return wm
             if name == "flips":
                 wm = models.nested([0.6, 1.0], [1.0, 0.33], 0); wm["info"]["topology"] = "nested"
                 return gd.redescribe(gd.redescribe(wm, cr, "mesh_flip"), cr, "local_flips")
@@ -300,7 +369,46 @@ def main(replay=None):
         cid = 100000; d = os.path.join(ck.workdir, "c%d" % cid); shutil.rmtree(d, ignore_errors=True); shutil.copytree(src, d)
         shutil.copy(os.path.join(d, "HeadNNb1.geom"), os.path.join(d, "model.geom"))
         nnb = core.fcase("c11", [1, cid, 0, 0], [])
+    # lexer-level variants of some cases: the text of model.geom / model.cond is altered, only the character-level
+    # model and the library are compared on them
+    lexcases = []; lexstat = {}
+    if not replay:
+        pool = [c for c in cases if not c["tag"].startswith("error")]
+        for q in range(min(2 * len(pool), 90 if quick else 300)):
+            c = pool[rng.randrange(len(pool))]; la = c["lex_args"]
+            which = rng.choice(["geom", "geom", "cond"]) if c["has_cond"] else "geom"
+            kind = rng.choice(gd.LEX_MUTATIONS if which == "geom" else gd.COND_MUTATIONS)
+            gtext = open(os.path.join(c["dir"], "model.geom"), "rb").read()
+            ctext = open(os.path.join(c["dir"], "model.cond"), "rb").read() if c["has_cond"] else b""
+            new = gd.mutate_geom(gtext, kind, rng) if which == "geom" else gd.mutate_cond(ctext, kind, rng)
+            if new is None: continue
+            if which == "geom": gtext = new
+            else: ctext = new
+            cid = 200000 + q; d = os.path.join(ck.workdir, "c%d" % cid); shutil.rmtree(d, ignore_errors=True); shutil.copytree(c["dir"], d)
+            open(os.path.join(d, "model.geom"), "wb").write(gtext)
+            if c["has_cond"]: open(os.path.join(d, "model.cond"), "wb").write(ctext)
+            lexcases.append(dict(tag="lex:%s:%s" % (which, kind), of=c["tag"], dir=d,
+                                 lline=core.fcase("c11lex", gd.lex_wire(la["m"], la["T"], la["files"], gtext, ctext, la["has_cond"], la["old"], la["isign"], la["probe_wire"]), la["fl"]),
+                                 hline=core.fcase("c11", [1, cid, 1 if la["has_cond"] else 0, 1 if la["old"] else 0], [x for p_ in c["probes"] for x in p_]),
+                                 geom=gtext.decode(errors="replace"), cond=ctext.decode(errors="replace")))
+            dist[lexcases[-1]["tag"]] = dist.get(lexcases[-1]["tag"], 0) + 1
+    lo = core.run_model([c["lline"] for c in cases] + [c["lline"] for c in lexcases])
+    if lexcases:
+        _, lio, _ = core.run_harness(hb, [c["hline"] for c in lexcases], ck.workdir, timeout=90, tag="lex", max_restarts=3)
+        for c, m_, i_ in zip(lexcases, lo[len(cases):], lio):
+            mi, mf = core.fparse(m_); ii, if_ = core.fparse(i_)
+            lexstat[c["tag"]] = lexstat.get(c["tag"], []) + [mi[0] if mi else None]
+            if ii is None or mi != ii or len(mf) != len(if_) or not all(feq(a, b) for a, b in zip(mf, if_)):
+                ck.violation("lexer %s" % c["tag"], "character-level reader model and library disagree on a textual variant (%s of a %s case): model %s, library %s"
+                             % (c["tag"], c["of"], (mi or ["?"])[:1], (ii or [i_[:20]])[:1]),
+                             dict(kind="lexer", geom=c["geom"], cond=c["cond"], model_out=m_[:2000], impl_out=i_[:2000]), found_input=False)
+    lex_same = 0
     mo = core.run_model([c["mline"] for c in cases])
+    for c, a, b in zip(cases, mo, lo):
+        if a != b:
+            ck.violation("lexer vs token-level reader (%s)" % c["tag"].split(":")[0], "the character-level and the token-level reader models disagree on %s (syntax %s)" % (c["tag"], c["style"]),
+                         dict(kind="lexer-token", geom=open(os.path.join(c["dir"], "model.geom")).read(), token_out=a[:1500], lexer_out=b[:1500]), found_input=False)
+        else: lex_same += 1
     if nnb:
         _, o_, _ = core.run_harness(hb, [nnb], ck.workdir, timeout=300, tag="nnb")
         zi, _ = core.fparse(o_[0])
@@ -327,54 +435,28 @@ def main(replay=None):
             where = next((k for k, (a, b) in enumerate(zip(mi, ii)) if a != b), min(len(mi), len(ii)))
             rep.update(model_out=m_[:4000], impl_out=i_[:4000], first_difference=where)
             # the model is proved to satisfy the index/pair/domain theorems: if the implementation output itself breaks one
-            # of them the mismatch is a concrete failing input of the property
-            bad = own_relations(c, ii, if_) if ii and ii[0] == 0 else []
+            # of them the mismatch is a concrete failing input of the property; otherwise only the tie is broken
+            bad, _ = property_failures(c, ii, if_) if ii and ii[0] == 0 else ([], 0)
+            # a valid description that the library refuses to load violates "after loading any valid description ..."
+            if ii and ii[0] != 0 and mi and mi[0] == 0 and not c["tag"].startswith("error"):
+                bad = [("valid description rejected (%s)" % c["tag"].split(":")[-1], "the library refuses (status %d) a valid generated description (%s) that the model loads" % (ii[0], c["tag"]))]
             if bad:
-                ck.violation("%s: %s (%s)" % (bad[0][0], bad[0][1], c["tag"]), "loaded geometry violates the property: %s; description kind %s" % (bad[0][1], c["tag"]), rep)
+                for sig, what in bad[:3]: ck.violation(sig, "loaded geometry violates the property: %s" % what, rep)
             else:
                 fld = first_diff_field(mi, ii) if (mi == ii) is False and len(mf) == len(if_) else "float-valued accessors"
                 if mi == ii: fld = "sigma / sigma_inv / indicator / conductivity_jump / conductivities"
-                ck.violation("correspondence %s" % c["tag"].split(":")[0], "model and implementation disagree on a generated description (%s, syntax %s): first difference in %s (output position %d; model status %s, implementation status %s)"
-                             % (c["tag"], c["style"], fld, where, mi[:1], ii[:1]), rep)
+                ck.violation("correspondence %s" % c["tag"].split(":")[0], "model and implementation disagree on a generated description (%s, syntax %s): first difference in %s (output position %d; model status %s, implementation status %s); none of the property's own relations fails on the implementation output, so only the tie between model and source is broken"
+                             % (c["tag"], c["style"], fld, where, mi[:1], ii[:1]), rep, found_input=False)
             continue
         if mi[0] == 0: nontriv.add(c["mline"])
-        # property relations on the (agreeing) output
-        for kind, what in own_relations(c, ii, if_):
-            ck.violation("%s: %s (%s)" % (kind, what, c["tag"]), "loaded geometry violates the property: %s" % what, rep)
-        if mi[0] == 0 and c["probes"]:
-            D = decode(ii); nm = len(D["meshes"])
-            # probe answers sit after the parts in `rest`
-            got = D["rest"][:len(c["probes"])]
-            exp = expected_domains(c)
-            for p, gk, hits in zip(c["probes"], got, exp):
-                nprobe += 1
-                if len(hits) != 1 or gk != hits[0]:
-                    names = [n for n, _ in c["model"]["domains"]]
-                    ck.violation("domain(p): %s" % c["tag"].split(":")[-1],
-                                 "probe point %r lies in domain(s) %s geometrically but Geometry::domain returned %s" % (p, [names[h] for h in hits], names[gk] if 0 <= gk < len(names) else gk), rep)
-                    break
-        # nested / non-nested classification against the geometric truth of the generated topology
-        if mi[0] == 0 and c["tag"].startswith("base:"):
-            want, what = expected_nested(c["model"])
-            got = decode(ii)["nested"]
-            if want is not None and bool(got) != want:
-                label = "sibling inclusions" if c["model"]["info"].get("kind") == "inclusions" else what
-                ck.violation("nested classification: %s classified %s" % (label, "nested" if got else "non-nested"),
-                             "is_nested() = %d for a model with %s (the interfaces %s a chain under inclusion); witness of nested_classification_correct_refuted replayed on the library"
-                             % (got, what, "form" if want else "do not form"), rep)
-        # conductivities attached by name
-        lf = os.path.join(c["dir"], "loaded.txt")
-        if mi[0] == 0 and c["has_cond"] and os.path.exists(lf):
-            for line in open(lf):
-                t = line.split()
-                if t[0] == "domain":
-                    want = c["cond_first"].get(t[1])
-                    if want is None or float.fromhex(t[2]) != float(want):
-                        ck.violation("conductivity of %s" % c["tag"].split(":")[0], "domain %s got conductivity %s, file says %r" % (t[1], t[2], want), rep)
+        bad, np_ = property_failures(c, ii, if_) if mi[0] == 0 else ([], 0)
+        nprobe += np_
+        for sig, what in bad: ck.violation(sig, "loaded geometry violates the property: %s" % what, rep)
     ck.cov.update(evaluations=len(cases), distinct_nontrivial=len(nontriv),
                   rule="generated head descriptions (nested 1-4 layers, zero-conductivity layers, split hemispheres with shared vertices, sibling and non-conductive inclusions) x re-descriptions x concrete syntaxes (1.1 named/commented/interface-shorthand/unnamed, legacy 1.0), ~15% damaged descriptions; non-trivial = loads successfully; distinct = distinct abstract descriptions",
                   samples=[c["mline"][:300] for c in cases[:2]], op_distribution=dist, error_outcomes=errs,
-                  correspondence_mismatches=mism, traces_validated_against_impl=len(cases), probe_points=nprobe)
+                  correspondence_mismatches=mism, traces_validated_against_impl=len(cases) + len(lexcases), probe_points=nprobe,
+                  lexer_cases=dict(same_as_token_level=lex_same, textual_variants=len(lexcases), load_status_by_variant={k: {str(x): v.count(x) for x in set(v)} for k, v in lexstat.items()}))
     ck.cov["trusted_base"] += ["hand-written Gallina model coq/Geom/GeomModel.v tied by exact differential runs (harness/h_c11.cpp vs extract/omm)",
                                "lib/geomdesc.py: name resolution, point identities, solid-angle sign and winding-number oracles (Python floats, margin from the surfaces)",
                                "extraction: ExtrOcamlBasic only"]
